@@ -417,6 +417,19 @@ func TestC03(t *testing.T) {
 		// patch with a series of >= 2 messages that is not a whole-file operation)
 		if pattern == 0 && m == 0 {
 			if rp, err := DecodePatch(patch); err == nil && rp.Header.Compression.Algorithm == pwr.CompressionAlgorithm_NONE {
+				// ... or a patch that deals with three files or more, of whatever kind: whole-file
+				// reuse included (a patch made of renames and unchanged files is still an
+				// application that can take long and be interrupted)
+				processed := 0
+				for i := range rp.Files {
+					if whitelist == nil || whitelist[int64(i)] {
+						processed++
+					}
+				}
+				if processed >= 3 {
+					Violation(rt, "C03/no-checkpoint-offered", "consumer always asked to save, patch is uncompressed and applies %d files, yet no checkpoint was offered (%s)", processed, cfg)
+					return
+				}
 				for i, fs := range rp.Files {
 					multi := len(fs.Ctrl) >= 2 || (len(fs.Ops) >= 3)
 					if whitelist != nil && !whitelist[int64(i)] {
